@@ -16,7 +16,7 @@ MANIFEST = dict(
          "silence when only foreign bits change; over any history of watch/unwatch/patch the observer list never holds duplicates and every call "
          "carries old != new (induction). Tie: translator for the intersection filter + differential correspondence of both real structure classes "
          "(GeckoStructure, GeckoAsyncStructure) with recording observers against the model driver."
-         ' Since session 3: histories include bound-method observers (equal, not identical), wholesale loads (set_status_block) followed by patches, and updates that flip the temperature unit under watched temperature items. State inventory (notification_state_inventory): status_block_changed and the value decoders write no attribute; both structures write only the block. Observers that change the registration list from inside their callback (unwatch themselves or others, unwatch_all, watch): dispatch model Model/ObserverDispatch.lean, theorems C03.Reentrant.*, real structures of both classes. Session 5: notification_walk_keeps_no_state (Observable._on_change / watch / unwatch assign nothing); the smallest change of a stored number (one or two steps, whole field / low byte / window), which a presentation coarser than the stored reading would swallow. Round 14: one GeckoAsyncSpa object connected, disconnected and connected again (real `_connect` wiring); the spa changes watched items on every connection.',
+         ' Since session 3: histories include bound-method observers (equal, not identical), wholesale loads (set_status_block) followed by patches, and updates that flip the temperature unit under watched temperature items. State inventory (notification_state_inventory): status_block_changed and the value decoders write no attribute; both structures write only the block. Observers that change the registration list from inside their callback (unwatch themselves or others, unwatch_all, watch): dispatch model Model/ObserverDispatch.lean, theorems C03.Reentrant.*, real structures of both classes. Session 5: notification_walk_keeps_no_state (Observable._on_change / watch / unwatch assign nothing); the smallest change of a stored number (one or two steps, whole field / low byte / window), which a presentation coarser than the stored reading would swallow. Round 14: one GeckoAsyncSpa object connected, disconnected and connected again (real `_connect` wiring); the spa changes watched items on every connection. Round 15: observers of a second blocking session; observers read the other polled items from inside their callback (the client having polled them before the update) and must see the installed block through every item.',
     note="Trusted: Lean kernel; translator; correspondence harness. Temperature items: the model compares stored words, the code compares values converted "
          "with the current unit (equivalent; the conversion itself is C14). An observer that raises aborts the remaining notifications (Python semantics) - excluded. "
          "Patches running past byte 1023 are outside the hypotheses (the real code would grow the block).",
@@ -60,6 +60,26 @@ class Rig:
         self.s.build_accessors(cm.GeckoConfigStruct(self.s), lm.GeckoLogStruct(self.s))
         self.calls = []
         self.observers = {}
+        self.items, self.poll_keys, self.stale = {}, [], []     # set by the runner: the items a client polls and reads from its callbacks
+
+    def poll(self):
+        for k in self.poll_keys:
+            try:
+                self.s.accessors[k].value
+            except Exception:  # noqa
+                pass
+
+    def look(self, from_key):
+        """what an observer sees when it reads OTHER items from inside its callback: every value is the one of the block installed now"""
+        blk = self.s.status_block
+        for k in self.poll_keys:
+            try:
+                v = self.s.accessors[k].value
+            except Exception as e:  # noqa
+                v = f"raised {type(e).__name__}"
+            w = item_value(self.items[k], blk)
+            if v != w and len(self.stale) < 5:
+                self.stale.append({"observer of": from_key, "reads item": k, "gets": str(v), "the installed block says": str(w)})
 
     def observer(self, key, oid):
         """even ids: one function object per observer; odd ids: a BOUND METHOD, i.e. a fresh (equal, not identical) object on
@@ -72,10 +92,12 @@ class Rig:
                 class Obs:
                     def cb(self, sender, old, new, _k=k):
                         rig.calls.append((_k[0], _k[1], sender, old, new, rig.s.status_block))
+                        rig.look(_k[0])
                 self.observers[k] = Obs()
             else:
                 def cb(sender, old, new, _k=k):
                     self.calls.append((_k[0], _k[1], sender, old, new, self.s.status_block))
+                    self.look(_k[0])
                 self.observers[k] = cb
         o = self.observers[k]
         return o.cb if oid % 2 == 1 else o
@@ -430,11 +452,20 @@ def run(ctx):
             outs = []
             for rig in rigs:
                 rig.calls.clear()
+                if not rig.poll_keys:
+                    rig.items = items
+                    rig.poll_keys = [k for k, v in registered.items() if v and items[k]["kind"] != "temp" and items[k]["pos"] + items[k]["len"] <= 1024][:40]
+                rig.poll()            # the client has read its items since the last update
                 try:
                     rig.s.replace_status_block_segment(off, seg)
                     err = None
                 except Exception as e:  # noqa
                     err = canon_err(e)
+                if rig.stale:
+                    ctx.violation(f"notify:stale-item-value:{cls}", {"cfg": cm["file"], "log": lm["file"], "block": block.hex(), "off": off, "seg": hx(seg),
+                                                                      "registered": {k: v for k, v in registered.items() if v}},
+                                  "every observer already reads the new block, through any item", rig.stale[:3])
+                    rig.stale = []
                 parts = []
                 for (key, oid, sender, old, new, seen) in rig.calls:
                     it = items[key]
@@ -488,6 +519,10 @@ def run(ctx):
         check_reconnected_object(ctx)
     except Exception as e:  # noqa
         ctx.obligation_broken("harness:reconnected-object", f"{type(e).__name__}: {e}")
+    try:
+        check_second_blocking_session(ctx)
+    except Exception as e:  # noqa
+        ctx.obligation_broken("harness:second-blocking-session", f"{type(e).__name__}: {e}")
     try:
         model = Driver("Driver/C03.lean").run(lines)
     except DriverFailure as e:
@@ -604,7 +639,30 @@ def check_reconnected_object(ctx):
         ctx.obligation_broken("harness:reconnected-object", f"only {len(recs)} connection(s) ran")
 
 
+def check_second_blocking_session(ctx):
+    """the blocking client: a second `GeckoSpa` session in the same process (real start_connect handshake, stepped) to a spa of the same
+    pack and versions; the spa changes watched items and reports them - exactly one call each, right values, new block visible"""
+    import bsessions
+    from common import REPO
+    r = bsessions.notifications_in_second_session(str(REPO / "tests" / "snapshots" / "inYT-Pump1Hi-2020-12-13 11_19_35.snapshot"))
+    ctx.count("evaluations", max(1, len(r.get("changes", []))))
+    ctx.hist("second_blocking_session", "connected" if all(r["connected"]) else "not-connected")
+    if not all(r["connected"]):
+        ctx.violation("second-blocking-session:not-connected", {"kind": "second-blocking-session"}, "both sessions connect", r["connected"])
+        return
+    for ch in r["changes"]:
+        if ch["calls"] != ch["want"]:
+            ctx.violation("second-blocking-session:notifications", {"kind": "second-blocking-session", "item": ch["item"]},
+                          {"calls (item, old, new, value read in the callback)": ch["want"]}, {"calls": ch["calls"][:5]})
+            return
+
+
 def replay(inp):
+    if inp.get("kind") == "second-blocking-session":
+        from common import Ctx
+        c = Ctx("C03", "quick", 0)
+        check_second_blocking_session(c)
+        return bool(c.violations), c.violations[0]["observed"] if c.violations else "every change notified exactly once"
     if inp.get("kind") == "reconnected-object":
         from common import Ctx
         c = Ctx("C03", "quick", 0)
@@ -622,10 +680,15 @@ def replay(inp):
         for oid in oids:
             rig.s.accessors[key].watch(rig.observer(key, oid))
     seg = bytes.fromhex(inp["seg"]) if inp["seg"] != "-" else b""
-    rig.s.replace_status_block_segment(inp["off"], seg)
-    new_block = block[:inp["off"]] + seg + block[inp["off"] + len(seg):]
     mods = {m["file"]: m for m in packs.load_tables()}
     items = {it["key"]: it for f in (inp["cfg"], inp["log"]) for it in mods[f]["items"]}
+    rig.items = items
+    rig.poll_keys = [k for k, v in inp.get("registered", {}).items() if v and items[k]["kind"] != "temp" and items[k]["pos"] + items[k]["len"] <= 1024][:40]
+    rig.poll()
+    rig.s.replace_status_block_segment(inp["off"], seg)
+    new_block = block[:inp["off"]] + seg + block[inp["off"] + len(seg):]
+    if rig.stale:
+        return True, rig.stale[:3]
     expected = sorted((k, o) for k, it in items.items() if it["pos"] + it["len"] <= 1024 and item_value(it, block) != item_value(it, new_block)
                       for o in inp.get("registered", {}).get(k, []))
     got = sorted((c[0], c[1]) for c in rig.calls)
